@@ -231,7 +231,7 @@ def rl_quota_schedules():
         return {"a": "Recv", "dt": 1, "d": "V", "ch": "AB", "amt": amt, "fate": fate}
 
     def lim(name, pct, ch="AB"):
-        return {"a": name, "dt": 1, "d": "V", "ch": ch, "qs": pct, "qr": pct, "dur": 1}
+        return {"a": name, "dt": 1, "d": "V", "ch": ch, "qs": pct, "qr": pct, "dur": 3}   # no epoch reset before tick 25
     adm = lambda name, ch="AB": {"a": name, "dt": 1, "d": "V", "ch": ch}  # noqa
     return [
         {"id": "RL-q1", "kind": "RL", "acts": [
@@ -395,20 +395,22 @@ def denom_case_of_step(acts, step):
 
 PFM_MC_WITNESS = ["Transfer", "Recv:final", "Recv:forward", "Recv:err", "Ack:ok", "Ack:err", "Ack:fwd-ok", "Ack:fwd-err",
                   "Timeout:plain", "Timeout:giveup", "Timeout:retry", "Terminal:delivered", "Terminal:refunded",
-                  "Refund:move", "Refund:burn", "Refund:mint", "Unwind:2", "Depth:3", "BadChannel"]
+                  "Refund:move", "Refund:burn", "Refund:mint", "Unwind:2", "Depth:3", "BadChannel",
+                  "Refund:move-voucher", "Refund:move-voucher-timeout", "Route:x", "Forward:third-channel"]
+PFM_MC_WITNESS_THOROUGH = ["Route:xb"]
 
 
 def pfm_mc_constants(tier):
     if tier == "quick":
-        return dict(TOKENS={"TA", "TB", "TC"}, DEPTHS={2, 3}, AMTS={7}, RETS={0, 1}, TOS={10}, FINS={"rcvr", "bad"},
-                    BADHOPS={0, 2}, EXPS={0, 5}, MaxJ=1)
-    return dict(TOKENS={"TA", "TB", "TC", "TD"}, DEPTHS={1, 2, 3}, AMTS={7}, RETS={0, 1}, TOS={10}, FINS={"rcvr", "bad"},
-                BADHOPS={0, 1, 2}, EXPS={0, 5}, MaxJ=1)
+        return dict(TOKENS={"TA", "TB", "TC", "TX"}, ROUTES={"std", "x"}, DEPTHS={2, 3}, AMTS={7}, RETS={0, 1}, TOS={10},
+                    FINS={"rcvr", "bad"}, BADHOPS={0, 2}, EXPS={0, 5}, MaxJ=1)
+    return dict(TOKENS={"TA", "TB", "TC", "TD", "TX"}, ROUTES={"std", "x", "xb"}, DEPTHS={1, 2, 3}, AMTS={7}, RETS={0, 1}, TOS={10},
+                FINS={"rcvr", "bad"}, BADHOPS={0, 1, 2}, EXPS={0, 5}, MaxJ=1)
 
 
 def pfm_sched_constants(tier, depth, outdir):
-    return dict(TOKENS={"TA", "TB", "TC", "TD"}, DEPTHS={1, 2, 3} if tier != "quick" else {2, 3}, AMTS={7, 13}, RETS={0, 1},
-                TOS={10, 3}, FINS={"rcvr", "bad"}, BADHOPS={0, 1, 2}, EXPS={0, 5}, Depth=depth, OutDir=outdir,
+    return dict(TOKENS={"TA", "TB", "TC", "TD", "TX"}, ROUTES={"std", "x", "xb"}, DEPTHS={1, 2, 3} if tier != "quick" else {2, 3},
+                AMTS={7, 13}, RETS={0, 1}, TOS={10, 3}, FINS={"rcvr", "bad"}, BADHOPS={0, 1, 2}, EXPS={0, 5}, Depth=depth, OutDir=outdir,
                 ADV_PCT=12, TIMEOUT_PCT=35, XI_PCT=8)
 
 
@@ -418,7 +420,7 @@ def run_mc_pfm(tier, d):
     vk.write_cfg(cfg, "Spec", consts, invariants=["Inv"], properties=["AllOrNothing"])
     r = vk.tlc_mc(d, "MC_PFM", cfg, workers=4, timeout=900 if tier == "quick" else 3000)
     seen = set(re.findall(r'<<"WITNESS", "([A-Za-z0-9:-]+)">>', r["out"]))
-    missing = [w for w in PFM_MC_WITNESS if w not in seen]
+    missing = [w for w in PFM_MC_WITNESS + (PFM_MC_WITNESS_THOROUGH if tier != "quick" else []) if w not in seen]
     if missing:
         raise vk.Infra("vacuous model check (PFM): never witnessed %s" % missing)
     return {"distinct": r["distinct"], "generated": r["generated"], "depth": r["depth"], "witnessed": sorted(seen),
@@ -464,6 +466,37 @@ def pfm_boundary_schedules():
         {"a": "Timeout", "dt": 1, "pkt": f1},                  # tick 7: retry
         {"a": "Timeout", "dt": 4, "pkt": f2},                  # tick 11 > 10: give up
         {"a": "Ack", "dt": 1, "pkt": p1}]})
+    # vouchers that reached B over a THIRD channel (neither the channel the packet arrived on nor the one it is forwarded
+    # over): on failure the funds are moved from the forward escrow back to the refund escrow, never burned
+    TX = {"t": ["AB@A", "BX@B"], "b": "TC"}
+    TD = {"t": ["AB@A", "BC@B", "CD@C"], "b": "TD"}
+    # 3. TC that came over BX, forwarded over BC, error acknowledgement on the last hop
+    m = [_hop("BC", "bad", 10, 0)]
+    p1 = pkt("A", "AB", 1, TX, 7, "user", "pfm", m, 0)
+    f1 = pkt("B", "BC", 1, {"t": ["BX@B"], "b": "TC"}, 7, "pfm", "bad", [], 13)
+    out.append({"id": "PF-b3", "kind": "PFM", "acts": [
+        tr(TX, 7, m), {"a": "Recv", "dt": 1, "pkt": p1}, {"a": "Recv", "dt": 1, "pkt": f1},
+        {"a": "Ack", "dt": 1, "pkt": f1}, {"a": "Ack", "dt": 1, "pkt": p1},
+        # and the same token delivered, so that the escrows are exercised in the success direction too
+        tr(TX, 13, [_hop("BC", "rcvr", 10, 0)]),
+        {"a": "Recv", "dt": 1, "pkt": pkt("A", "AB", 2, TX, 13, "user", "pfm", [_hop("BC", "rcvr", 10, 0)], 0)},
+        {"a": "Recv", "dt": 1, "pkt": pkt("B", "BC", 2, {"t": ["BX@B"], "b": "TC"}, 13, "pfm", "rcvr", [], 18)},
+        {"a": "Ack", "dt": 1, "pkt": pkt("B", "BC", 2, {"t": ["BX@B"], "b": "TC"}, 13, "pfm", "rcvr", [], 18)},
+        {"a": "Ack", "dt": 1, "pkt": pkt("A", "AB", 2, TX, 13, "user", "pfm", [_hop("BC", "rcvr", 10, 0)], 0)}]})
+    # 4. TC that came over BC, forwarded over BX, timeout without retries
+    m = [_hop("BX", "rcvr", 3, 0)]
+    p1 = pkt("A", "AB", 1, TC, 13, "user", "pfm", m, 0)
+    f1 = pkt("B", "BX", 1, {"t": ["BC@B"], "b": "TC"}, 13, "pfm", "rcvr", [], 6)
+    out.append({"id": "PF-b4", "kind": "PFM", "acts": [
+        tr(TC, 13, m), {"a": "Recv", "dt": 1, "pkt": p1}, {"a": "Timeout", "dt": 4, "pkt": f1}, {"a": "Ack", "dt": 1, "pkt": p1}]})
+    # 5. TD (two hops of trace on B) over BX and on to D, invalid final receiver: burn on C, move on B
+    m = [_hop("BX", "pfm", 10, 0), _hop("CD", "bad", 10, 0)]
+    p1 = pkt("A", "AB", 1, TD, 7, "user", "pfm", m, 0)
+    f1 = pkt("B", "BX", 1, {"t": ["BC@B", "CD@C"], "b": "TD"}, 7, "pfm", "pfm", m[1:], 13)
+    f2 = pkt("C", "CD", 1, {"t": ["BX@C", "BC@B", "CD@C"], "b": "TD"}, 7, "pfm", "bad", [], 14)
+    out.append({"id": "PF-b5", "kind": "PFM", "acts": [
+        tr(TD, 7, m), {"a": "Recv", "dt": 1, "pkt": p1}, {"a": "Recv", "dt": 1, "pkt": f1}, {"a": "Recv", "dt": 1, "pkt": f2},
+        {"a": "Ack", "dt": 1, "pkt": f2}, {"a": "Ack", "dt": 1, "pkt": f1}, {"a": "Ack", "dt": 1, "pkt": p1}]})
     return out
 
 
@@ -522,7 +555,8 @@ def trace_constants(kind, tf):
     if kind == "RL":
         return dict(HOUR=RL_HOUR, TraceFile=tf)
     if kind == "PFM":   # the journey constants are not used by the trace specification
-        return dict(TOKENS={"TA"}, DEPTHS={1}, AMTS={1}, RETS={0}, TOS={1}, FINS={"rcvr"}, BADHOPS={0}, EXPS={0}, TraceFile=tf)
+        return dict(TOKENS={"TA"}, ROUTES={"std"}, DEPTHS={1}, AMTS={1}, RETS={0}, TOS={1}, FINS={"rcvr"}, BADHOPS={0}, EXPS={0},
+                    TraceFile=tf)
     return dict(TraceFile=tf)
 
 
@@ -590,6 +624,13 @@ def coverage_of(groups):
                     cov["RL:pending:%s:%s" % (name, d["res"])] += 1
                 if name == "XImport":
                     cov["RL:XImport/%s:%s" % (d.get("xi"), d["res"])] += 1
+                if name in ("Send", "Recv"):
+                    kind_ = ("y" if a.get("w") else "x") if fate == "err" else ("r" if a.get("w") else "u")
+                    pair = ("uA>%sB" if name == "Send" else "uB>%sA") % kind_
+                    if pair in d["st"].get("wl", []):
+                        cov["RL:%s/whitelisted:%s" % (name, d["res"])] += 1
+                    if a.get("d") in d["st"].get("bl", []):
+                        cov["RL:%s/blacklisted:%s%s" % (name, d["res"], "/ack-" + d.get("ack", "") if name == "Recv" else "")] += 1
                 sigs["C41"].add((name, d["res"], d.get("ack"), fate, a.get("d"), a.get("ch"), bool(d["st"]["rl"]), d.get("nb")))
             elif kind == "DENOM":
                 if name == "Case":
@@ -617,6 +658,10 @@ def coverage_of(groups):
                         cov["PFM:%s/wrote-%s:ok" % (name, wa["cls"])] += 1
                     if name == "Transfer":
                         cov["PFM:Transfer/depth-%d:ok" % (len(a.get("memo") or []) + 1)] += 1
+                    tr_ = (pk.get("d") or {}).get("t") or []
+                    if name in ("Ack", "Timeout") and pk.get("src") == "B" and tr_ and tr_[0] not in (pk.get("L", "") + "@B", "AB@B") \
+                            and any(wa["cls"] == "err" for wa in d["wack"]):
+                        cov["PFM:%s/refund-third-channel:ok" % name] += 1
                 sigs["C43"].add((name, d["res"], pk.get("src"), pk.get("L"), len(pk.get("d", {}).get("t", [])) if pk else None,
                                  len(pk.get("memo") or []), bool(d["sent"]), tuple(wa["cls"] for wa in d["wack"]),
                                  json.dumps(a.get("d")), len(a.get("memo") or [])))
@@ -627,13 +672,15 @@ FLOORS = {
     "C41": ["RL:Send:ok", "RL:Send:err", "RL:Recv/ack-ok:ok", "RL:Recv/ack-err:ok", "RL:Recv/ack-none:ok",
             "RL:Ack/fate-err:ok", "RL:Ack/fate-ok:ok", "RL:Timeout/fate-to:ok", "RL:Resolve/ack-err:ok", "RL:Resolve/ack-ok:ok",
             "RL:Add:ok", "RL:Update:ok", "RL:Remove:ok", "RL:Reset:ok", "RL:Add:err", "RL:limited:Send:err",
-            "RL:pending:Update:ok", "RL:pending:Reset:ok"],
+            "RL:pending:Update:ok", "RL:pending:Reset:ok", "RL:WlAdd:ok", "RL:WlDel:ok", "RL:BlAdd:ok", "RL:BlDel:ok",
+            "RL:Send/whitelisted:ok", "RL:Recv/whitelisted:ok", "RL:Send/blacklisted:err", "RL:Recv/blacklisted:ok/ack-err"],
     "C42": ["DENOM:XSend:ok", "DENOM:XSend:err", "DENOM:XRecv:ack-ok", "DENOM:XRecv:ack-err", "DENOM:XSend/charged:ok",
             "DENOM:XRecv/charged:ack-ok", "DENOM:XSend/mint-or-burn:ok", "DENOM:XSend/escrow:ok",
             "DENOM:XRecv/mint-or-burn:ack-ok", "DENOM:XRecv/escrow:ack-ok"],
     "C43": ["PFM:Transfer:ok", "PFM:Recv/forward:ok", "PFM:Timeout/retry:ok", "PFM:Ack/wrote-ok:ok", "PFM:Ack/wrote-err:ok",
             "PFM:Timeout/wrote-err:ok", "PFM:Recv/wrote-err:ok", "PFM:Recv/wrote-ok:ok", "PFM:Recv:err", "PFM:Timeout:err",
-            "PFM:Transfer/depth-2:ok", "PFM:Transfer/depth-3:ok"],
+            "PFM:Transfer/depth-2:ok", "PFM:Transfer/depth-3:ok", "PFM:Ack/refund-third-channel:ok",
+            "PFM:Timeout/refund-third-channel:ok"],
 }
 
 KIND_OF_PROP = {"C41": "RL", "C42": "DENOM", "C43": "PFM"}
